@@ -45,7 +45,9 @@ def cases(draw):
     return {"d": d, "history": hist, "batch": b, "passes": p, "script": script, "step": step, "offset": off, "negzero": negz,
             "more": more, "grid_points": draw(st.sampled_from([11, 11, 2, 3, 1001])),
             # a long history: the drawn rows come first, followed by filler rows (which repeat the alphabet's rows cyclically)
-            "long_history": draw(st.sampled_from([0] * 12 + [1023, 1024, 1025, 2049, 3000]))}
+            "long_history": draw(st.sampled_from([0] * 12 + [1023, 1024, 1025, 2049, 3000])),
+            # the history kept in numpy's extended precision, some of its rows a hair (2^-62 relative) away from alphabet points
+            "longdouble_history": draw(st.integers(0, 7)) == 0}
 
 
 def _model(hist, script, b, p):
@@ -116,13 +118,19 @@ def check_dedup(ctx: Ctx, case):
     gp = case.get("grid_points", 11)
     space = SearchSpace([[0.0] * d, [float(gp - 1)] * d], [1.0] * d, verbose=False)   # not used by the scripted sampler
     existing = np.array(hist, dtype=float).reshape(len(hist), d)
+    if case.get("longdouble_history") and np.finfo(np.longdouble).eps < np.finfo(float).eps:
+        hair = np.longdouble(2) ** -62
+        hist = [tuple(np.longdouble(v) + (hair * (abs(np.longdouble(v)) + 1) if (i + k) % 2 == 0 else 0) for k, v in enumerate(r))
+                for i, r in enumerate(hist)]
+        existing = np.array(hist, dtype=np.longdouble).reshape(len(hist), d)
+        case = dict(case, more=[])      # (later calls rebuild the history in double precision: not combined with this option)
     e0 = existing.copy()
     losses = np.arange(len(hist), dtype=float)
     sizes, model_out, flagged, first = _model(hist, script, b, p)
     cnt0 = Counter(hist) + Counter(first)
     first_has_repeat = any(cnt0[r] > 1 for r in first)
     classes = [f"P={p}" if p == 0 else "P>0", f"step={step:g}"] + (["negative-zero"] if case.get("negzero") else []) + \
-        (["history>=space_size"] if len(hist) >= gp ** d else []) + (["history>1024-rows"] if len(hist) > 1024 else [])
+        (["history>=space_size"] if len(hist) >= gp ** d else []) + (["history>1024-rows"] if len(hist) > 1024 else []) + (["longdouble-history"] if existing.dtype != np.float64 else [])
     if any(Counter(first)[r] > 1 for r in first):
         classes.append("in-batch-repeat")
     if any(r in set(hist) for r in first):
